@@ -23,7 +23,7 @@ static double ulpf(double v) {
 }
 
 static Circuit genGlobalCircuit(Rng &rng, std::string &profile) {
-  profile = rng.pick(std::vector<std::string>{"general", "nets", "manyfixed", "obstruction", "multirow", "dense", "big", "floating"});
+  profile = rng.pick(std::vector<std::string>{"general", "nets", "manyfixed", "obstruction", "multirow", "dense", "big", "floating", "allturned", "blocked"});
   GenOpts o = makeProfile(rng, profile);
   o.minRowWidth4H = true;
   o.maxCells = (int)rng.pick(std::vector<int>{3, 10, 25, 60});
